@@ -17,6 +17,9 @@ import (
 	"strings"
 	"syscall"
 
+	p9p "github.com/frobnitzem/go-p9p"
+	"github.com/frobnitzem/go-p9p/ufs"
+
 	"verifharness/cmd/c15/drv"
 	"verifharness/internal/prng"
 	"verifharness/internal/rep"
@@ -246,6 +249,16 @@ func main() {
 			panic(p)
 		}
 	}()
+
+	// util.go oflags on all 256 mode bytes: against the model (cases) and against open(5) (oracle)
+	for m := 0; m < 256; m++ {
+		fl := ufs.VerifOflags(p9p.Flag(m))
+		c := sx.L(sx.Sym("oflags"), sx.I(int64(m)))
+		r.Case(c, sx.L(sx.I(int64(fl&3)), sx.Bool(fl&os.O_TRUNC != 0), sx.Bool(fl&os.O_CREATE != 0)), "oflags", true)
+		if fl != hostFlags(uint8(m)) {
+			r.Fail("ufs.oflags", fmt.Sprintf("oflags(%#x) = %#x, open(5) gives %#x", m, fl, hostFlags(uint8(m))), c, nil)
+		}
+	}
 
 	nseq := r.N(300, 6000)
 	opsTotal, changed := 0, 0
